@@ -825,6 +825,9 @@ spif_str_trim(spif_str_t self)
     spif_charptr_t start, end;
 
     ASSERT_RVAL(!SPIF_STR_ISNULL(self), FALSE);
+    if (!self->s || !self->len) {
+        return TRUE;
+    }
     start = self->s;
     end = self->s + self->len - 1;
     for (; isspace((spif_uchar_t) (*start)) && (start < end); start++);
